@@ -77,6 +77,15 @@ def single_node_part(prop, oprop, tier, rng, out, known, cov):
                     pos = rng.randrange(len(c["actions"]) + 1)
                     base = 1000 + rng.randrange(100) * 10
                     c["actions"].insert(pos, [rng.choice(["burst", "seq", "chain", "chain"]), 0, [base + j for j in range(rng.choice([2, 3]))]])
+            faulty = False
+            if oprop == "C04" and c.get("sink") != "sync" and not c.get("react") and rng.random() < 0.2 \
+                    and not any(a[0] == "mix" for a in c["actions"]):
+                # some consumers FAIL instead of finishing: only the last clause of C04 is judged on such a run (a node
+                # whose forwarding coroutine died is wedged afterwards, which no property forbids)
+                idx = [i for i, a in enumerate(c["actions"]) if a == ["ack"]][:8]
+                for i in rng.sample(idx, min(len(idx), rng.choice([1, 1, 2]))):
+                    c["actions"][i] = ["ackfail"]
+                    faulty = True
             try:
                 o = asyncfam.run_case(c)
             except Exception as e:
@@ -86,20 +95,20 @@ def single_node_part(prop, oprop, tier, rng, out, known, cov):
             kinds_hist[kind] = kinds_hist.get(kind, 0) + 1
             if any(ob["deliv"] for ob in o[1:]):
                 nontriv.add(json.dumps(c, sort_keys=True))
-            for (p, sig, msg) in oracle(oprop, c, o):
+            for (p, sig, msg) in (asyncoracle.check_failed(c, o) if faulty else oracle(oprop, c, o)):
                 sig = sig.replace("C05A", "C05")
                 if sig in known:
                     out.known_finding(sig, known[sig]["what"])
                     continue
                 if nfind < 3:
-                    def still(c2, sig=sig):
+                    def still(c2, sig=sig, faulty=faulty):
                         o2 = asyncfam.run_case(c2)
-                        return any(s == sig for _, s, _ in oracle(oprop, c2, o2))
+                        return any(s == sig for _, s, _ in (asyncoracle.check_failed(c2, o2) if faulty else oracle(oprop, c2, o2)))
                     out.violation(sig, msg, {"case": shrink(c, still), "family": "async-single"})
                 nfind += 1
                 break
     # correspondence (cases with a burst / mix have no model action: oracle only)
-    modelled = [(c, o) for (c, o) in co if c["node"]["k"] in asyncrun.MODELS and not any(a[0] in ("burst", "seq", "chain", "mix") for a in c["actions"]) and not c.get("react")]
+    modelled = [(c, o) for (c, o) in co if c["node"]["k"] in asyncrun.MODELS and not any(a[0] in ("burst", "seq", "chain", "mix", "ackfail") for a in c["actions"]) and not c.get("react")]
     mism, errors = asyncrun.correspondence(prop, modelled)
     for p_, o_ in errors:
         out.violation("%s/correspondence-error" % prop, "coqc failed on generated cases: %s" % o_[-400:], {"file": p_}, no_input=True)
@@ -193,7 +202,8 @@ def run(prop, tier, seed, replay=None, extra=None):
                 (out.known_finding(sig, known[sig]["what"]) if sig in known else out.violation(sig, msg, {"case": c, "family": "async-chain"}))
         else:
             o = asyncfam.run_case(c)
-            for (p, sig, msg) in oracle(oprop, c, o):
+            faulty_r = any(a[0] == "ackfail" for a in c["actions"])
+            for (p, sig, msg) in (asyncoracle.check_failed(c, o) if faulty_r else oracle(oprop, c, o)):
                 sig = sig.replace("C05A", "C05")
                 (out.known_finding(sig, known[sig]["what"]) if sig in known else out.violation(sig, msg, {"case": c, "family": "async-single"}))
         cov = {"evaluations": 1, "distinct_nontrivial": 1, "samples": [c], "rule": "replay"}
